@@ -34,7 +34,8 @@ ASSUMPTIONS = ['steps h > 0 (generator contract); x real for the recorded-offset
                'the user function is treated as uninterpreted: its values are fresh symbols (complex / Bicomplex as the '
                'call requires)']
 NOT_DECIDED = ['whether x + h in floating point rounds to a value below x: rounding is outside A1']
-BOUNDED = ['dimension d of the vector classes enumerated (quick: 1..3, thorough: 1..5 -- the property\'s range); the '
+BOUNDED = ['points-concrete: the evaluation points of every vector difference function recorded on floats that do not survive (x+h)-h exactly (0.1, 0.3, 1e-18 next to 2.0; steps not powers of two): one-sidedness, mirror points, unperturbed coordinates bit-identical to x -- executed, not proved',
+           'dimension d of the vector classes enumerated (quick: 1..3, thorough: 1..5 -- the property\'s range); the '
            'argument is uniform in d']
 QUANTIFIED = 'x (each coordinate), h (each coordinate, > 0), all values returned by f: universally quantified reals; ' \
              'n, order universally quantified integers in the dispatch groups'
@@ -76,6 +77,7 @@ def groups(tier):
     for klass in ['Derivative', 'Jacobian', 'Gradient', 'Hessdiag', 'Hessian']:
         out.append(('glue[%s]' % klass, ('glue', klass, tier)))
     out.append(('frame', ('frame',)))
+    out.append(('points-concrete', ('pconc',)))
     return out
 
 
@@ -510,7 +512,16 @@ def run_frame():
     return dict(fun_reads=sorted(set(hits)))
 
 
+def run_pconc():
+    from ndvc.concrete import evaluation_point_cases
+    m = mods()
+    cnt, bad = evaluation_point_cases(m['fd'], m['mc'].Bicomplex)
+    solve.fact('evaluation-points-admissible-in-floating-point(unperturbed-coordinates-bit-identical-to-x)[%d cases]' % cnt, not bad, kind='bounded', note=str(bad[:2])[:400])
+    return {}
+
 def run_group(args):
+    if args[0] == 'pconc':
+        return run_pconc()
     if args[0] == 'points':
         return run_points(args[1], args[2])
     if args[0] == 'dispatch':
@@ -522,6 +533,8 @@ def run_group(args):
 
 
 def replay_case(ob):
+    if ob['name'].startswith('points-concrete/'):
+        return dict(kind='C05.pconc')
     import re
     mm = re.search(r'points\[(\w+),d=(\d+)\]/(_\w+?):', ob['name'])
     if mm:
